@@ -149,7 +149,9 @@ class _Subst(ast.NodeTransformer):
 
 
 class Program:
-    def __init__(self, repo="/repo", pkg_rel="src/vsc", pkg="vsc"):
+    def __init__(self, repo="/repo", pkg_rel="src/vsc", pkg="vsc", form="raw"):
+        self.form = form          # "raw": the tree as written; "nf": semantics-preserving normal form (sa/normalize.py)
+        self.nf_stats = None
         self.repo = repo
         self.root = os.path.join(repo, pkg_rel)
         self.pkg = pkg
@@ -186,10 +188,19 @@ class Program:
                     tree = ast.parse(raw, filename=p)
                 except SyntaxError as e:
                     raise AnalysisError("module %s does not parse: %s" % (rel, e))
-                canon_single_use_tests(tree)
                 m = Module(name, p, rel, tree, raw.decode("utf-8", "replace"))
                 self.modules[name] = m
-        self.digest = h.hexdigest()
+        if self.form == "nf":
+            from .normalize import census, normalise
+            cnt = census([m.tree for m in self.modules.values()])
+            tot = [0, 0, 0]
+            for m in self.modules.values():
+                r = normalise(m.tree, cnt)
+                tot = [a + b for a, b in zip(tot, r)]
+            self.nf_stats = {"helper_calls_inlined": tot[0], "aliases_folded": tot[1], "enumerate_rewritten": tot[2]}
+        for m in self.modules.values():
+            canon_single_use_tests(m.tree)
+        self.digest = h.hexdigest() + ("" if self.form == "raw" else "+" + self.form)
         for m in self.modules.values():
             self._index_module(m)
         self._build_pseudo_classes()
@@ -600,6 +611,34 @@ def guard_facts(fnode, node, with_raise=True):
                             facts += canon_facts(sib.test, True)
         n = p
     return facts
+
+
+def expand_locals(fnode, expr, depth=4):
+    """text of `expr` with every local that has exactly one (call-free or not) definition in fnode replaced by that
+    definition, recursively: `range_l[0][0]` -> `bound_m[uf].domain.range_l[0][0]`.  Loop targets and parameters stay."""
+    defs = {}
+    for n in walk_local(fnode):
+        if isinstance(n, ast.Assign) and len(n.targets) == 1 and isinstance(n.targets[0], ast.Name):
+            defs.setdefault(n.targets[0].id, []).append(n.value)
+        elif isinstance(n, (ast.AugAssign,)) and isinstance(n.target, ast.Name):
+            defs.setdefault(n.target.id, []).append(None)
+        elif isinstance(n, (ast.For, ast.comprehension)):
+            for x in ast.walk(n.target):
+                if isinstance(x, ast.Name):
+                    defs.setdefault(x.id, []).append(None)
+
+    class T(ast.NodeTransformer):
+        def __init__(self, d):
+            self.d = d
+
+        def visit_Name(self, node):
+            ds = defs.get(node.id)
+            if isinstance(node.ctx, ast.Load) and ds and len(ds) == 1 and ds[0] is not None and self.d > 0:
+                import copy
+                return T(self.d - 1).visit(copy.deepcopy(ds[0]))
+            return node
+    import copy
+    return norm(T(depth).visit(copy.deepcopy(expr)))
 
 
 def sig_body(fnode_or_list):
